@@ -162,7 +162,7 @@ Definition exp_FileIP_SetAuditInfo : list stm :=
   [SLock "ip.lock"; SAssign "ip.auditInfo"; SUnlock "ip.lock"].
 
 Definition exp_FileIP_WriteAuditLogToFile : list stm :=
-  [SCall "ip.AuditInfo"; SLock "ip.lock"; SCall "json.MarshalIndent"; SUnlock "ip.lock"; SCall "CheckWithMsg(jsonErr, ""Could not marshall JSON"")"; SCall "ip.createDirs"; SCall "ioutil.WriteFile(ip.AuditFilePath(), auditInfoJSON, 0644)"; SCall "CheckWithMsg(writeErr, ""Could not write audit file: "" + ip.Path())"].
+  [SCall "ip.AuditInfo"; SLock "ip.lock"; SCall "json.MarshalIndent"; SUnlock "ip.lock"; SCall "CheckWithMsg(jsonErr, ""Could not marshall JSON"")"; SCall "ip.createDirs"; SCall "ioutil.WriteFile(tmpAuditPath, auditInfoJSON, 0644)"; SCall "CheckWithMsg(writeErr, ""Could not write audit file: "" + ip.Path())"; SCall "os.Rename(tmpAuditPath, ip.AuditFilePath())"; SCall "CheckWithMsg(renameErr, ""Could not write audit file: "" + ip.Path())"].
 
 Definition exp_FileIP_CreateFifo : list stm :=
   [SCall "ip.createDirs"; SLock "ip.lock"; SBlock [SCall "os.Stat"; SIf "err == nil" [] [SCall "exec.Command(""bash"", ""-c"", cmd).Output"; SCall "CheckWithMsg(err, ""Could not execute command: "" + cmd)"]]; SUnlock "ip.lock"].
